@@ -767,6 +767,10 @@ def shrink_case(case, fails, budget=400):
         sh = shadow_run(c, True)
         if sh and sh[-1] and sh[-1][0] == "ERR":
             return False
+        try:
+            to_cb(c)
+        except (KeyError, IndexError, AssertionError):
+            return False            # refers to a variable whose declaration was removed
         return fails(c)
 
     def resig(o):
